@@ -412,6 +412,10 @@ func (p *Program) verify(fn *ssa.Function, fc *FuncContract) (x *Exec) {
 	x.addSmoke("requires", nil, st)
 	fr.block = fn.Blocks[0]
 	x.staticRecursion(st)
+	x.staticLockOnce(st)
+	for _, ob := range x.obs {
+		ob.Static = true // everything generated so far is structural
+	}
 	x.runPaths(st)
 	return x
 }
